@@ -330,9 +330,67 @@ def enrich(mm: mmg.MetaModel, rng: random.Random, per_class: Tuple[int, int] = (
     return hist
 
 
+_SHADOW_WORDS = ("one", "two", "three", "four", "five", "six")
+
+
+def add_shadow_functions(mm: mmg.MetaModel, rng: random.Random, hist: Dict[str, int], per_model: int = 4) -> None:
+    """Transpilable verification functions whose ARGUMENT is named like a global of the
+    meta-model (constant, constant set, enumeration, another verification function, class,
+    constrained primitive) and invariants that call them. In Python the argument shadows the
+    global; the generated function must read its argument, too."""
+    kinds: List[Tuple[str, List[str]]] = [
+        ("constant", [c.name for c in mm.constants if isinstance(c, mmg.ConstantPrimitive)]),
+        ("constant_set", [c.name for c in mm.constants if isinstance(c, mmg.ConstantSet)]),
+        ("enumeration", [e.name for e in mm.enumerations]),
+        ("function", [f.name for f in mm.verification_functions]),
+        ("class", [c.name for c in mm.classes]),
+        ("constrained_primitive", [c.name for c in mm.constrained_primitives]),
+    ]
+    kinds = [(k, ns) for k, ns in kinds if ns]
+    rng.shuffle(kinds)
+    used_desc = {inv.description for c in mm.classes for inv in c.invariants}
+    made = 0
+    for kind, names in kinds[:per_model]:
+        shadowed = rng.choice(names)
+        fname = f"is_shade_{_SHADOW_WORDS[made]}"
+        if mm.find_function(fname) is not None:
+            continue
+        prim = rng.choice(["int", "int", "str"])
+        me = Name(shadowed)
+        if prim == "int":
+            body: Any = Cmp(rng.choice(mmg.CMP_OPS), me, Const(rng.randint(-1, 6)))
+            if rng.random() < 0.4:
+                body = And((body, Cmp(rng.choice(mmg.CMP_OPS), Sub(me, Const(1)), Const(rng.randint(0, 9)))))
+        else:
+            body = Cmp(rng.choice(mmg.CMP_OPS), Call("len", (me,)), Const(rng.randint(0, 5)))
+        mm.verification_functions.append(
+            mmg.VerificationFunction(fname, "transpilable", [(shadowed, TPrim(prim))], body=body))
+        made += 1
+        hist[f"shadow:{kind}"] = hist.get(f"shadow:{kind}", 0) + 1
+        # invariants calling it
+        sites = []
+        for cls in mm.classes:
+            if cls.is_implementation_specific:
+                continue
+            for p, _ in mmg.stacked_properties(mm, cls):
+                if mmg.beneath_optional(p.type) == TPrim(prim):
+                    sites.append((cls, p))
+        rng.shuffle(sites)
+        for cls, p in sites[:2]:
+            target = Member(SELF, p.name)
+            call = Call(fname, (target,))
+            inv_body = _guard(rng, [target] if isinstance(p.type, TOpt) else [], call)
+            desc = f"Shadow {made}-{cls.name}: {p.name} shall satisfy {fname}"
+            if desc in used_desc:
+                continue
+            used_desc.add(desc)
+            cls.invariants.append(mmg.Invariant(desc, inv_body, form="c08:shadow"))
+
+
 def make_metamodel(rng: random.Random, base: str = "small") -> Tuple[mmg.MetaModel, Dict[str, int]]:
     mm = mmg.random_metamodel(rng, c08_profile(base))
     hist = enrich(mm, rng)
+    add_shadow_functions(mm, rng, hist)
     return mm, hist
 
 
